@@ -23,6 +23,6 @@ place_demo; run_demo > $out/demo_without_change.out 2>&1; echo "demo exit withou
 git checkout -q -- . ; git clean -fdq tests src 2>/dev/null
 echo "== checks on /repo with the change applied" >> $log
 cd /repo && git apply $diff || { echo "APPLY TO /repo FAILED" >> $log; exit 3; }
-for p in $props; do ( cd /verif && ./check $p --tier quick 2>&1 | cut -c1-400 > $out/check_$p.out; echo "check $p exit=${PIPESTATUS[0]}" >> $log ); done
+for p in $props; do ( cd /verif && VERIF_SEEDED_RUN=1 ./check $p --tier quick 2>&1 | cut -c1-400 > $out/check_$p.out; echo "check $p exit=${PIPESTATUS[0]}" >> $log ); done
 git -C /repo checkout -- .
 cat $log
